@@ -3,7 +3,7 @@
    count_at / quantile are the definitions of Model/C13.v whose binary64 instance is compared
    bit-for-bit with the implementation. *)
 From Coq Require Import QArith ZArith List.
-From Orso Require Import Model.C13 Model.C13_Q Proofs.C13 Proofs.C13_hist Proofs.C14.
+From Orso Require Import Model.C13 Model.C13_Q Proofs.C13 Proofs.C13_hist Proofs.C14 Proofs.C14_quantile.
 Import ListNotations.
 Open Scope Q_scope.
 
@@ -102,3 +102,22 @@ Print Assumptions C14_below_plus_above.
 
 (* NOT proved: monotonicity of quantile in its argument (exact arithmetic); it is checked on every
    histogram the differential run reaches, by the oracle, up to the ulp guard of F-C14-3. *)
+
+(* quantile is non-decreasing in its argument, over the whole of [0,1] and across the three
+   branches (left tail, interior segments found by the running sum of mids, right tail), for
+   every valid histogram; exact arithmetic *)
+Theorem C14_quantile_monotone :
+  forall (s : @st Q) mn mx q1 q2 x1 x2,
+  Inv s -> hmin s = Some mn -> hmax s = Some mx -> q1 <= q2 ->
+  quantile QA s q1 = ANum x1 -> quantile QA s q2 = ANum x2 -> x1 <= x2.
+Proof. exact quantile_monotone. Qed.
+Print Assumptions C14_quantile_monotone.
+
+(* ... and total there: it always answers with a number (the generator expression behind
+   next() is never exhausted, no index is out of range) *)
+Theorem C14_quantile_total :
+  forall (s : @st Q) mn mx q,
+  Inv s -> bins s <> [] -> hmin s = Some mn -> hmax s = Some mx -> 0 <= q -> q <= 1 ->
+  exists x, quantile QA s q = ANum x.
+Proof. exact quantile_total. Qed.
+Print Assumptions C14_quantile_total.
